@@ -4,7 +4,7 @@ from fractions import Fraction as F
 import numpy as np
 
 from .. import common as C
-from .. import impl
+from .. import gen, impl
 from .c03 import exact_follow, fr_mat, sqrt_le
 
 TRUSTED = [
@@ -31,11 +31,27 @@ def rational_orthogonal(rng, m):
     return P
 
 
-def has_margin(Bq, picks, costs=None, rel=F(1, 2 ** 18)):
-    """every step of the exact rule has a clear winner (needed before demanding equal rankings of a pair)"""
+def has_margin(Bq, picks, costs=None, rel=F(1, 2 ** 18), own=False):
+    """every step of the exact rule has a clear winner (needed before demanding equal rankings of a pair).
+    own=True (CCQR / GQR, which recompute each residual norm from the residual and work sensor by sensor): the margin is measured on the
+    scale of the two sensors' own norms - relative 2^-36, absolute 2^-38 of their norms, 2^-48 of their costs - instead of the matrix scale"""
     diags = exact_follow(Bq, picks)
     seen = set()
     scale = max([sum(x * x for x in r) for r in Bq] + [F(1, 10 ** 20)])
+    if own:
+        from .c03 import own_norms
+        s0 = own_norms(Bq)
+        for d, p in zip(diags, picks):
+            for c in range(len(d)):
+                if c in seen or c == p:
+                    continue
+                cp = costs[p] if costs else F(0)
+                cc = costs[c] if costs else F(0)
+                slack = F(1, 2 ** 38) * (s0[c] + s0[p]) + F(1, 2 ** 48) * (abs(cc) + abs(cp))
+                if not sqrt_le((1 + F(1, 2 ** 36)) ** 2 * d[c], cc - slack, d[p], cp):
+                    return False
+            seen.add(p)
+        return True
     for d, p in zip(diags, picks):
         for c in range(len(d)):
             if c in seen or c == p:
@@ -67,8 +83,26 @@ def run(chk):
             chk.count("wide_basis")
         k = min(n, m)
         B = rng.integers(-40, 41, size=(n, m)) / 8.0
+        u_k = rng.random()
+        if u_k < 0.12:
+            B, _k = gen.matrix(rng, n, m, "commonmode")           # nearly parallel sensors with well separated small individual parts
+            chk.count("kind:commonmode")
+        elif u_k < 0.22:
+            B, _k = gen.matrix(rng, n, m, "faintrows")            # independent sensors on wildly different scales
+            chk.count("kind:faintrows")
+        elif u_k < 0.34 and n >= 3 and m >= 2:
+            # two sensors that dominate and nearly tie: the later one is better by the factor 1 + 2^-32 (exact), the choice is unique
+            i_, j_ = sorted(int(v) for v in rng.choice(n, size=2, replace=False))
+            pm = rng.permutation(m)
+            B[j_] = B[i_][pm] * rng.choice([-1.0, 1.0], size=m)
+            if np.any(B[i_]):
+                B[i_] *= 4.0
+                B[j_] *= 4.0 * (1.0 + 2.0 ** -32)
+                chk.count("kind:near-tie")
         Bq = fr_mat(B)
         costs = rng.integers(-16, 17, size=n) / 8.0
+        if u_k < 0.34 and rng.random() < 0.5:
+            costs = np.zeros(n)
         cq = [F(float(c)) for c in costs]
         base = {"QR": [int(i) for i in QR().fit(B).get_sensors()],
                 "CCQR": [int(i) for i in impl.quiet(CCQR(sensor_costs=costs).fit, B.copy()).get_sensors()]}
@@ -88,8 +122,11 @@ def run(chk):
         opt = ["max_n", "exact_n", "predetermined"][int(rng.integers(0, 3))]
         gk = dict(idx_constrained=np.array(L, dtype=int), n_sensors=Nn, n_const_sensors=s, constraint_option=opt)
         base["GQR"] = [int(i) for i in impl.quiet(GQR().fit, B.copy(), all_sensors=np.array(base["QR"]), **gk).get_sensors()]
+        base["GQR0"] = [int(i) for i in impl.quiet(GQR().fit, B.copy()).get_sensors()]          # GQR without constraints: vetted on its own path
+        ok_g0 = has_margin(Bq, base["GQR0"][:k], own=True)
         ok_qr = has_margin(Bq, base["QR"][:k])
-        ok_cc = has_margin(Bq, base["CCQR"][:k], cq)
+        ok_cc = has_margin(Bq, base["CCQR"][:k], cq, own=True)
+        ok_gq = ok_qr or (has_margin(Bq, base["QR"][:k], own=True) and base["GQR"][:Nn] == base["QR"][:Nn])
         case0 = {"B": B.tolist(), "costs": costs.tolist(), "region": L, "N": Nn, "s": s, "option": opt, "base": base}
         # ---------------- (1) orthogonal mixing on the right
         Q = rational_orthogonal(rng, m)
@@ -99,10 +136,11 @@ def run(chk):
         got = {"QR": [int(i) for i in QR().fit(B2).get_sensors()],
                "CCQR": [int(i) for i in impl.quiet(CCQR(sensor_costs=costs).fit, B2.copy()).get_sensors()]}
         got["GQR"] = [int(i) for i in impl.quiet(GQR().fit, B2.copy(), all_sensors=np.array(got["QR"]), **gk).get_sensors()]
+        got["GQR0"] = [int(i) for i in impl.quiet(GQR().fit, B2.copy()).get_sensors()]
         case = {**case0, "transform": "right-orthogonal", "Q": [[str(x) for x in r] for r in Q], "observed": got}
         chk.case(case)
         chk.count("pairs:orthogonal")
-        for name, okm, kk in (("QR", ok_qr, k), ("CCQR", ok_cc, k), ("GQR", ok_qr, Nn)):
+        for name, okm, kk in (("QR", ok_qr, k), ("CCQR", ok_cc, k), ("GQR", ok_gq, Nn), ("GQR0", ok_g0, k)):
             if not okm:
                 chk.count("TIE-SKIP")
                 continue
@@ -119,10 +157,11 @@ def run(chk):
         got = {"QR": [int(i) for i in QR().fit(B * c).get_sensors()],
                "CCQR": [int(i) for i in impl.quiet(CCQR(sensor_costs=costs * c).fit, B * c).get_sensors()]}
         got["GQR"] = [int(i) for i in impl.quiet(GQR().fit, B * c, all_sensors=np.array(got["QR"]), **gk).get_sensors()]
+        got["GQR0"] = [int(i) for i in impl.quiet(GQR().fit, B * c).get_sensors()]
         case = {**case0, "transform": f"scale by {c}", "observed": got}
         chk.case(case)
         chk.count("pairs:scale")
-        for name, okm, kk in (("QR", ok_qr, k), ("CCQR", ok_cc, k), ("GQR", ok_qr, Nn)):
+        for name, okm, kk in (("QR", ok_qr, k), ("CCQR", ok_cc, k), ("GQR", ok_gq, Nn), ("GQR0", ok_g0, k)):
             if okm and got[name][:kk] != base[name][:kk]:
                 chk.violation("impl", "scaling-changes-ranking:" + name, f"{name}: ranking {base[name][:kk]} became {got[name][:kk]} after scaling matrix (and costs) by {c}", case)
         # ---------------- (2') the same real matrix held in an integer-typed array (the geometry is the same; the costs stay fractional)
@@ -153,10 +192,11 @@ def run(chk):
         got = {"QR": [int(i) for i in QR().fit(B3).get_sensors()],
                "CCQR": [int(i) for i in impl.quiet(CCQR(sensor_costs=costs3.copy()).fit, B3.copy()).get_sensors()]}
         got["GQR"] = [int(i) for i in impl.quiet(GQR().fit, B3.copy(), all_sensors=np.array([int(sig[i]) for i in base["QR"]]), **g3).get_sensors()]
+        got["GQR0"] = [int(i) for i in impl.quiet(GQR().fit, B3.copy()).get_sensors()]
         case = {**case0, "transform": "relabel", "sigma": sig.tolist(), "observed": got}
         chk.case(case)
         chk.count("pairs:relabel")
-        for name, okm, kk in (("QR", ok_qr, k), ("CCQR", ok_cc, k), ("GQR", ok_qr, Nn)):
+        for name, okm, kk in (("QR", ok_qr, k), ("CCQR", ok_cc, k), ("GQR", ok_gq, Nn), ("GQR0", ok_g0, k)):
             exp = [int(sig[i]) for i in base[name][:kk]]
             if okm and got[name][:kk] != exp:
                 chk.violation("impl", "relabelling-not-equivariant:" + name, f"{name}: relabelled input ranks {got[name][:kk]}, expected the relabelled ranking {exp}", case)
